@@ -263,11 +263,21 @@ func (mon) Plan(prop, tier string, seed int64) []drv.Shard {
 	if tier == "thorough" {
 		runs, perG, raceRuns = 150, 300, 40
 	}
+	parts, secs := 1, 0
+	if tier == "thorough" {
+		parts, secs = 3, 3600 // three differently seeded shards per setting
+	}
 	for i, gmp := range []string{"2", "4", "16"} {
-		a, _ := json.Marshal(shardArgs{Runs: runs, PerG: perG, Part: i})
-		out = append(out, drv.Shard{Name: "plain-gomaxprocs" + gmp, Args: a, Env: []string{"GOMAXPROCS=" + gmp}})
-		a, _ = json.Marshal(shardArgs{Runs: raceRuns, PerG: perG / 2, Part: 10 + i})
-		out = append(out, drv.Shard{Name: "race-gomaxprocs" + gmp, Args: a, Env: []string{"GOMAXPROCS=" + gmp}, Race: true})
+		for p := 0; p < parts; p++ {
+			sfx := ""
+			if parts > 1 {
+				sfx = fmt.Sprintf("-%d", p)
+			}
+			a, _ := json.Marshal(shardArgs{Runs: runs, PerG: perG, Part: i + 100*p})
+			out = append(out, drv.Shard{Name: "plain-gomaxprocs" + gmp + sfx, Args: a, Env: []string{"GOMAXPROCS=" + gmp}, Secs: secs})
+			a, _ = json.Marshal(shardArgs{Runs: raceRuns, PerG: perG / 2, Part: 10 + i + 100*p})
+			out = append(out, drv.Shard{Name: "race-gomaxprocs" + gmp + sfx, Args: a, Env: []string{"GOMAXPROCS=" + gmp}, Race: true, Secs: secs})
+		}
 	}
 	return out
 }
